@@ -14,7 +14,8 @@ import (
 
 // `fn.*` ops for the functions /verif/gen regenerates into Generated/Funcs{Tak,Sym,AI,FPA}.lean: each op runs
 // the real function; the Lean side evaluates the regenerated definition (Driver/OpsFnGen.lean).  Generators:
-// FNTAK (C01, C02), FNSYM (C14, C15), FNAI (C05), FNFPA (C20).
+// FNTAK (pieces: C01, C02), FNOVER (flood, flat count, game end: C02), FNMOVE (Slides.Len, Move methods: C05, C14, C20),
+// FNSYM (C14, C15), FNAI (C05), FNFPA (C20).
 
 func i8(s string) int8 { return int8(atoi(s)) }
 
@@ -149,6 +150,15 @@ func genFNTAK(c *Ctx) {
 			c.Emit(fmt.Sprintf("fn.piece %d %d %d", v&0xc0, v&3, v))
 			c.Emit(fmt.Sprintf("fn.piece %d %d %d", v, 255-v, v))
 		}
+	}
+	n := c.Scale(2000, 200000)
+	for k := 0; k < n; k++ {
+		c.Emit(fmt.Sprintf("fn.piece %d %d %d", c.R.Intn(256), c.R.Intn(256), c.R.Intn(256)))
+	}
+}
+
+func genFNMOVE(c *Ctx) {
+	if c.Shard == 0 {
 		for t := 0; t <= 16; t++ { // every move type (and the bad ones), every length
 			for n := 0; n <= 8; n++ {
 				var s uint32
@@ -160,6 +170,27 @@ func genFNTAK(c *Ctx) {
 				}
 			}
 		}
+	}
+	n := c.Scale(4000, 400000)
+	for k := 0; k < n; k++ {
+		c.Emit(fmt.Sprintf("fn.slen %d", edgeSlides(c.R)))
+		m := edgeMoveArgs(c.R)
+		if c.R.Chance(1, 2) {
+			c.Emit("fn.mequal " + m + " " + m)
+			c.Count("mequal:same")
+		} else {
+			c.Emit("fn.mequal " + m + " " + edgeMoveArgs(c.R))
+		}
+		if out := c.Emit("fn.mdest " + edgeMoveArgs(c.R)); out == "panic" {
+			c.Count("mdest:panic")
+		} else {
+			c.Count("mdest:ok")
+		}
+	}
+}
+
+func genFNOVER(c *Ctx) {
+	if c.Shard == 0 {
 		for _, x := range []uint64{0, 1, 1 << 63, ^uint64(0), 0x5555555555555555, 0xff00} {
 			c.Emit(fmt.Sprintf("fn.popcount %d", x))
 		}
@@ -179,20 +210,7 @@ func genFNTAK(c *Ctx) {
 		}
 		c.Emit(fmt.Sprintf("fn.flood %d %d %d", size, w, s))
 		c.Emit(fmt.Sprintf("fn.popcount %d", edgeU64(c.R)))
-		c.Emit(fmt.Sprintf("fn.slen %d", edgeSlides(c.R)))
-		m := edgeMoveArgs(c.R)
-		if c.R.Chance(1, 2) {
-			c.Emit("fn.mequal " + m + " " + m)
-			c.Count("mequal:same")
-		} else {
-			c.Emit("fn.mequal " + m + " " + edgeMoveArgs(c.R))
-		}
-		if out := c.Emit("fn.mdest " + edgeMoveArgs(c.R)); out == "panic" {
-			c.Count("mdest:panic")
-		} else {
-			c.Count("mdest:ok")
-		}
-		if k%8 == 0 {
+		if k%4 == 0 {
 			var p *tak.Position
 			switch c.R.Intn(5) {
 			case 0:
@@ -327,6 +345,8 @@ func genFNFPA(c *Ctx) {
 
 func init() {
 	genTable["FNTAK"] = genFNTAK
+	genTable["FNMOVE"] = genFNMOVE
+	genTable["FNOVER"] = genFNOVER
 	genTable["FNSYM"] = genFNSYM
 	genTable["FNAI"] = genFNAI
 	genTable["FNFPA"] = genFNFPA
